@@ -39,7 +39,7 @@ def run(chk):
             if len(o["frame"]) <= 7:
                 short += 1
     if short < 50:
-        raise ToolError("vacuity: only %d suffix events on frames with payload < 2 bytes" % short)
+        chk.vacuity("vacuity: only %d suffix events on frames with payload < 2 bytes" % short)
     chk.cov["distinct_nontrivial"] = len(nontriv)
     chk.assumptions += ["decoded messages are compared through a 128-bit digest of their canonical value tree"]
     return chk.finish("model_checking", RULE, extra={"short_payload_with_suffix": short})
